@@ -23,15 +23,30 @@ Theorem C01_edge_faithful : forall g evs w u d,
 Proof. exact edge_faithful. Qed.
 Print Assumptions C01_edge_faithful.
 
-(* siblings see each element in attachment order, each cascade completing before the next *)
+(* siblings see each element in attachment order, each cascade completing before the next: one call per downstream of
+   the snapshot that is still attached when its turn comes ([keep]); every permanent downstream is.  (Stream._emit tests
+   `downstream not in self.downstreams` before each hand-over: only a slice with an end that finished during an earlier
+   hand-over of the same emission - possible when it is attached to several upstreams - is skipped.) *)
 Theorem C01_sibling_order : forall g fuel depth n w x m w',
   wf_dag g -> WF g w -> push fuel g depth n w x m = (w', SOk) ->
-  exists new, log w' = rev new ++ log w /\
-    filter (fun e => e_depth e =? depth) new = map (fun d => mk_entry depth n d x m) (downs g w n) /\
+  exists new keep, log w' = rev new ++ log w /\
+    (forall d, permanent g d = true -> keep d = true) /\
+    filter (fun e => e_depth e =? depth) new = map (fun d => mk_entry depth n d x m) (filter keep (downs g w n)) /\
     (forall e, In e new -> depth <= e_depth e) /\
     (forall e, In e new -> is_down g (e_src e) (e_dst e) = true).
 Proof. exact sibling_order. Qed.
 Print Assumptions C01_sibling_order.
+
+(* no slice with an end among the downstreams: exactly one call per downstream, in attachment order *)
+Theorem C01_sibling_order_permanent : forall g fuel depth n w x m w',
+  wf_dag g -> WF g w -> (forall d, In d (downs g w n) -> permanent g d = true) ->
+  push fuel g depth n w x m = (w', SOk) ->
+  exists new, log w' = rev new ++ log w /\
+    filter (fun e => e_depth e =? depth) new = map (fun d => mk_entry depth n d x m) (downs g w n) /\
+    (forall e, In e new -> depth <= e_depth e) /\
+    (forall e, In e new -> is_down g (e_src e) (e_dst e) = true).
+Proof. exact sibling_order_permanent. Qed.
+Print Assumptions C01_sibling_order_permanent.
 
 (* the fuel of run/exec is always sufficient in a DAG: SFuel never hides a result *)
 Theorem C01_fuel_enough : forall g w e, wf_dag g -> snd (step (fuel_for g) g w e) <> SFuel.
@@ -113,8 +128,10 @@ Print Assumptions C01_slice_kernel_matches_source.
    statement by statement, in the world-level monad of Base/MiniPyW.v (an exception raised by `downstream.update` unwinds
    the loop; the returned list of awaitables is represented by the status only).  Base/BridgeEmit.v proves that they are
    the model's retain / release / push: `downstream.update` is the parameter call_update (log the call, evaluate the node's
-   update, run its action list with the recursive push), `self.downstreams` is read through the model's downs, and the
-   model's deliver is that call followed by the release - unless the call unwinds. *)
+   update, run its action list with the recursive push), `self.downstreams` is read through the model's downs, one turn
+   of the loop is the model's hand (the test `downstream not in self.downstreams` is attached: membership in downs of the
+   world at the time of the test; a child that left since the snapshot is not called and the reference retained for it is
+   released), and the model's deliver is the call followed by the release - unless the call unwinds. *)
 From SZ Require Import Base.MiniPyW Base.BridgeEmit.
 Theorem C01_emit_matches_source :
   forall fuel g depth n w x m,
@@ -125,7 +142,7 @@ Print Assumptions C01_emit_matches_source.
 Theorem C01_emit_matches_source_any_callee :
   forall emitfrom g depth n w x m,
   (let ds := downs g w n in
-   fold_left (deliver emitfrom g depth n x m) ds (retain w m (Z.of_nat (length ds)), SOk)) =
+   fold_left (hand emitfrom g depth n x m) ds (retain w m (Z.of_nat (length ds)), SOk)) =
   Gen.KN__emit.gen_emit (fun w => downs g w n) (call_update emitfrom g depth n) w x m.
 Proof. exact bridge_emit_gen. Qed.
 Print Assumptions C01_emit_matches_source_any_callee.
@@ -140,6 +157,20 @@ Theorem C01_deliver_skipped_after_unwinding :
   forall emitfrom g depth n x m w s d, status_go s = false -> deliver emitfrom g depth n x m (w, s) d = (w, s).
 Proof. exact deliver_stop. Qed.
 Print Assumptions C01_deliver_skipped_after_unwinding.
+Theorem C01_turn_is_hand_over_when_still_attached :
+  forall emitfrom g depth n x m w s d, attached g w n d = true ->
+  hand emitfrom g depth n x m (w, s) d = deliver emitfrom g depth n x m (w, s) d.
+Proof. exact hand_attached. Qed.
+Print Assumptions C01_turn_is_hand_over_when_still_attached.
+Theorem C01_turn_only_releases_when_detached :
+  forall emitfrom g depth n x m w s d, status_go s = true -> attached g w n d = false ->
+  hand emitfrom g depth n x m (w, s) d = (release w m 1, s).
+Proof. exact hand_gone. Qed.
+Print Assumptions C01_turn_only_releases_when_detached.
+Theorem C01_turn_skipped_after_unwinding :
+  forall emitfrom g depth n x m w s d, status_go s = false -> hand emitfrom g depth n x m (w, s) d = (w, s).
+Proof. exact hand_stop. Qed.
+Print Assumptions C01_turn_skipped_after_unwinding.
 Theorem C01_coroutine_call_never_unwinds_with_exception :
   forall emitfrom g depth n d w x m, is_coroutine (nkind (gnode g d)) = true ->
   snd (call_update emitfrom g depth n d w x m) <> SRaise.
